@@ -410,3 +410,420 @@ def transparent_helpers(doc):
     info['dropped'] = sorted(gone)
     doc['meta']['helpers'] = info
     return doc
+
+
+# ======================================================================================================================
+# N4 one spelling per library operation: `U::from(x)` and `x.into()` are the same conversion (Into is the blanket impl
+#    over From), `GenericArray::from_slice(s)` is defined as `s.into()`, `Vec::from(s)` / `s.to_owned()` of a slice are
+#    `s.to_vec()`.
+def _into_desc(t_from, t_to, old):
+    d = dict(old)
+    d.update({'path': 'core::convert::Into::into', 'key': 'core::convert::Into::into', 'name': 'into', 'crate': 'core', 'local': False,
+              'trait': 'core::convert::Into', 'self_ty': t_from, 'generic_args': [t_from, t_to], 'def_kind': 'AssocFn',
+              'path_args': '<%s as core::convert::Into<%s>>::into' % (t_from, t_to), 'orig_path': old.get('path')})
+    d.pop('impl_self_ty', None)
+    return d
+
+
+def _to_vec_desc(elem, old):
+    return {'path': 'std::slice::<impl [T]>::to_vec', 'path_args': 'std::slice::<impl [%s]>::to_vec' % elem, 'key': '[T]::to_vec', 'crate': 'alloc',
+            'local': False, 'name': 'to_vec', 'generic_args': [elem], 'def_kind': 'AssocFn', 'impl_self_ty': '[T]', 'orig_path': old.get('path'),
+            'resolved': {'path': 'std::slice::<impl [T]>::to_vec', 'key': '[T]::to_vec', 'local': False, 'crate': 'alloc', 'kind': 'Discriminant(0)', 'desc': 'item'}}
+
+
+def canonical_apis(doc):
+    n = 0
+    for b in doc.get('bodies', []):
+        for blk in b['blocks']:
+            t = blk['term']
+            if t.get('k') != 'call' or len(t.get('args', [])) != 1:
+                continue
+            f = t.get('func') or {}
+            fn = f.get('fn') if f.get('k') == 'const' else None
+            if not fn or fn.get('local'):
+                continue
+            r = fn.get('resolved') or {}
+            if r.get('local'):
+                continue            # a conversion implemented in this crate is analysed as the call it is
+            src, dst = t['arg_tys'][0], t['dest_ty']
+            new = None
+            if fn['path'] == 'core::convert::From::from':
+                if dst.startswith(('std::vec::Vec<', 'alloc::vec::Vec<')) and src.startswith('&[') and src.endswith(']'):
+                    new = _to_vec_desc(src[2:-1], fn)
+                else:
+                    new = _into_desc(src, dst, fn)
+            elif fn['path'] in ('generic_array::GenericArray::<T, N>::from_slice', 'generic_array::GenericArray::<T, N>::from_mut_slice'):
+                new = _into_desc(src, dst, fn)
+            elif fn['path'] in ('std::borrow::ToOwned::to_owned', 'alloc::borrow::ToOwned::to_owned') and src.startswith('&[') and dst.startswith(('std::vec::Vec<', 'alloc::vec::Vec<')):
+                new = _to_vec_desc(src[2:-1], fn)
+            if new is not None:
+                f['fn'] = new
+                n += 1
+    doc.setdefault('meta', {})['canonical_api_calls'] = n
+    return doc
+
+
+# ======================================================================================================================
+# N3 `r.map(f)` / `r.and_then(f)` on Result and Option are the `match` they abbreviate: the call is replaced by a branch
+#    on the discriminant with `f` applied (constructor: aggregate; closure literal / local fn: body inlined) on the
+#    success arm and the failure re-wrapped unchanged on the other.  Control flow hidden inside the library combinator
+#    becomes visible to every CFG-based rule (dominance, error identity, pass-through).
+_COMBINATORS = {
+    'core::result::Result::<T, E>::map': ('result', 'map'),
+    'core::result::Result::<T, E>::and_then': ('result', 'and_then'),
+    'core::option::Option::<T>::map': ('option', 'map'),
+    'core::option::Option::<T>::and_then': ('option', 'and_then'),
+    'core::result::Result::<T, E>::map_err': ('result', 'map_err'),
+    'core::option::Option::<T>::ok_or': ('option', 'ok_or'),
+}
+
+
+def _agg(adt, variant, vidx, fnames, fields, args=None):
+    return {'k': 'aggregate', 'agg': 'adt', 'adt': adt, 'adt_args': args or [], 'variant': variant, 'variant_idx': vidx,
+            'field_names': fnames, 'fields': fields}
+
+
+def _split_top(s):
+    """top-level comma split of the inside of `Name<...>`"""
+    depth = 0
+    out, cur = [], ''
+    for ch in s:
+        if ch in '<([':
+            depth += 1
+        elif ch in '>)]':
+            depth -= 1
+        if ch == ',' and depth == 0:
+            out.append(cur.strip())
+            cur = ''
+        else:
+            cur += ch
+    if cur.strip():
+        out.append(cur.strip())
+    return out
+
+
+def _ty_args(ty):
+    i = ty.find('<')
+    return _split_top(ty[i + 1:-1]) if i >= 0 and ty.endswith('>') else []
+
+
+def _applied(b, by_key, fop):
+    """what a function-valued operand denotes: ('ctor', fn desc) | ('fn', operand) | ('closure', key, env operand) | None"""
+    if fop.get('k') == 'const' and fop.get('fn'):
+        ffn = fop['fn']
+        if (ffn.get('def_kind') or '').startswith('Ctor('):
+            return ('ctor', ffn)
+        if ffn.get('local') and ffn.get('key') in by_key and ffn.get('def_kind') in ('Fn', 'AssocFn') and not ffn.get('trait'):
+            return ('fn', fop)
+        return None
+    if fop.get('k') == 'const' and fop.get('closure') in by_key:
+        return ('closure', fop['closure'], fop)
+    if fop.get('k') == 'move' and not fop['place']['p']:
+        cl = fop['place']['l']
+        defs = [st for bb in b['blocks'] for st in bb['stmts'] if st['k'] == 'assign' and st['place'] == {'l': cl, 'p': []}]
+        if len(defs) == 1 and defs[0]['rv']['k'] == 'aggregate' and defs[0]['rv'].get('agg') == 'closure' and defs[0]['rv']['closure'] in by_key:
+            return ('closure', defs[0]['rv']['closure'], fop)
+    return None
+
+
+def expand_combinators(doc):
+    bodies = doc['bodies']
+    by_key = {b['key']: b for b in bodies}
+    crate = (doc.get('meta') or {}).get('crate', 'hpke')
+    count = 0
+    for b in bodies:
+        guard = 0
+        again = True
+        while again and guard < 64:
+            again = False
+            guard += 1
+            for bi, blk in enumerate(b['blocks']):
+                t = blk['term']
+                if t.get('k') != 'call' or blk.get('cleanup'):
+                    continue
+                f = t.get('func') or {}
+                fn = f.get('fn') if f.get('k') == 'const' else None
+                if not fn or fn.get('path') not in _COMBINATORS or len(t['args']) != 2 or t.get('target') is None:
+                    continue
+                kind, comb = _COMBINATORS[fn['path']]
+                x, fop = t['args']
+                if x.get('k') != 'move' or x['place']['p'] or t['dest']['p']:
+                    continue
+                xl = x['place']['l']
+                xty, dty = t['arg_tys'][0], t['dest_ty']
+                xa, da = _ty_args(xty), _ty_args(dty)
+                if kind == 'result' and len(xa) != 2:
+                    continue
+                if kind == 'option' and len(xa) != 1:
+                    continue
+                out_is_result = dty.startswith('core::result::Result<')
+                if (out_is_result and len(da) != 2) or (not out_is_result and len(da) != 1):
+                    continue
+                app = None
+                if comb != 'ok_or':
+                    app = _applied(b, by_key, fop)
+                    if app is None:
+                        continue
+                line = t.get('line')
+                L = b['locals']
+
+                def new_local(ty):
+                    L.append({'ty': ty, 'ty_raw': ty, 'name': None, 'mut': True, 'synthetic': True})
+                    return len(L) - 1
+
+                def mv(l):
+                    return {'k': 'move', 'place': {'l': l, 'p': []}}
+
+                def asg(place, rv):
+                    return {'k': 'assign', 'place': place, 'rv': rv, 'line': line, 'exp': False, 'syn': comb}
+                in_adt = 'core::result::Result' if kind == 'result' else 'core::option::Option'
+                out_adt = 'core::result::Result' if out_is_result else 'core::option::Option'
+                okv, okidx = ('Ok', 0) if kind == 'result' else ('Some', 1)
+                out_ok = ('Ok', 0) if out_is_result else ('Some', 1)
+                target = t['target']
+                d_l = new_local('isize')
+                blocks = b['blocks']
+                base = len(blocks)
+                # block numbers: succ arm, succ wrap, fail arm, fail wrap
+                sa, sw, fa, fw = base, base + 1, base + 2, base + 3
+                blk['stmts'].append(asg({'l': d_l, 'p': []}, {'k': 'discriminant', 'place': {'l': xl, 'p': []}}))
+                blk['term'] = {'k': 'switch', 'discr': mv(d_l), 'discr_ty': 'isize', 'targets': [[okidx, sa]], 'otherwise': fa,
+                               'line': line, 'exp': False, 'syn': comb}
+
+                def apply_block(arg_l, arg_ty, res_l, res_ty, nxt):
+                    """a block that computes res_l = F(arg_l) and continues at nxt"""
+                    stmts = []
+                    if app[0] == 'ctor':
+                        ffn = app[1]
+                        cpath = ffn.get('ctor_of') or ffn['path']
+                        if 'Variant' in ffn['def_kind']:
+                            aadt, variant = cpath.rsplit('::', 1)
+                            vidx = {'None': 0, 'Some': 1, 'Ok': 0, 'Err': 1}.get(variant, 0)
+                        else:
+                            aadt, variant, vidx = cpath, cpath.rsplit('::', 1)[-1], 0
+                        stmts.append(asg({'l': res_l, 'p': []}, _agg(aadt, variant, vidx, ['0'], [mv(arg_l)], ffn.get('generic_args'))))
+                        return {'cleanup': False, 'stmts': stmts, 'term': {'k': 'goto', 'target': nxt, 'line': line}, 'syn': comb}, None
+                    if app[0] == 'fn':
+                        func, args, atys, ck = app[1], [mv(arg_l)], [arg_ty], app[1]['fn']['key']
+                    else:
+                        ck = app[1]
+                        cb = by_key[ck]
+                        env_ty = cb['locals'][1]['ty'] if len(cb['locals']) > 1 else ''
+                        envop = app[2]
+                        if env_ty.startswith('&') and envop.get('k') == 'move':
+                            e_l = new_local(env_ty)
+                            stmts.append(asg({'l': e_l, 'p': []}, {'k': 'ref', 'mut': env_ty.startswith('&mut'), 'fake': False, 'place': envop['place']}))
+                            envop = mv(e_l)
+                        func = {'k': 'const', 'ty': 'closure', 'text': ck,
+                                'fn': {'path': ck, 'path_args': ck, 'key': ck, 'crate': crate, 'local': True, 'name': ck.rsplit('::', 1)[-1],
+                                       'generic_args': [], 'def_kind': 'Closure',
+                                       'resolved': {'path': ck, 'key': ck, 'local': True, 'crate': crate, 'kind': 'closure', 'desc': 'item'}}}
+                        args, atys = [envop, mv(arg_l)], [env_ty, arg_ty]
+                    term = {'k': 'call', 'func': func, 'args': args, 'arg_tys': atys, 'dest': {'l': res_l, 'p': []}, 'dest_ty': res_ty,
+                            'target': nxt, 'unwind': t.get('unwind', 'continue'), 'source': 'Normal', 'line': line, 'fn_line': line, 'exp': False, 'syn': comb}
+                    return {'cleanup': False, 'stmts': stmts, 'term': term, 'syn': comb}, ck
+                # ---- success arm
+                succ_ty = xa[0]
+                v_l = new_local(succ_ty)
+                payload = {'l': xl, 'p': [{'downcast': okv, 'v': okidx}, {'f': '0', 'i': 0, 'ty': succ_ty, 'adt': in_adt}]}
+                take = asg({'l': v_l, 'p': []}, {'k': 'use', 'op': {'k': 'move', 'place': payload}})
+                inline_at = []
+                if comb in ('map', 'and_then'):
+                    res_ty = da[0] if comb == 'map' else dty
+                    r_l = new_local(res_ty)
+                    ab, ck = apply_block(v_l, succ_ty, r_l, res_ty, sw)
+                    ab['stmts'].insert(0, take)
+                    blocks.append(ab)
+                    if ck:
+                        inline_at.append((sa, ck))
+                    wrv = _agg(out_adt, out_ok[0], out_ok[1], ['0'], [mv(r_l)], da) if comb == 'map' else {'k': 'use', 'op': mv(r_l)}
+                    blocks.append({'cleanup': False, 'stmts': [asg(t['dest'], wrv)], 'term': {'k': 'goto', 'target': target, 'line': line}, 'syn': comb})
+                else:   # map_err / ok_or: the success payload is re-wrapped unchanged
+                    blocks.append({'cleanup': False, 'stmts': [take, asg(t['dest'], _agg(out_adt, out_ok[0], out_ok[1], ['0'], [mv(v_l)], da))],
+                                   'term': {'k': 'goto', 'target': target, 'line': line}, 'syn': comb})
+                    blocks.append({'cleanup': False, 'stmts': [], 'term': {'k': 'goto', 'target': target, 'line': line}, 'syn': comb})
+                # ---- failure arm
+                if comb == 'map_err':
+                    e_l = new_local(xa[1])
+                    epl = {'l': xl, 'p': [{'downcast': 'Err', 'v': 1}, {'f': '0', 'i': 0, 'ty': xa[1], 'adt': in_adt}]}
+                    r2 = new_local(da[1])
+                    ab, ck = apply_block(e_l, xa[1], r2, da[1], fw)
+                    ab['stmts'].insert(0, asg({'l': e_l, 'p': []}, {'k': 'use', 'op': {'k': 'move', 'place': epl}}))
+                    blocks.append(ab)
+                    if ck:
+                        inline_at.append((fa, ck))
+                    blocks.append({'cleanup': False, 'stmts': [asg(t['dest'], _agg(out_adt, 'Err', 1, ['0'], [mv(r2)], da))],
+                                   'term': {'k': 'goto', 'target': target, 'line': line}, 'syn': comb})
+                elif comb == 'ok_or':
+                    blocks.append({'cleanup': False, 'stmts': [asg(t['dest'], _agg(out_adt, 'Err', 1, ['0'], [fop], da))],
+                                   'term': {'k': 'goto', 'target': target, 'line': line}, 'syn': comb})
+                    blocks.append({'cleanup': False, 'stmts': [], 'term': {'k': 'goto', 'target': target, 'line': line}, 'syn': comb})
+                elif kind == 'result':
+                    e_l = new_local(xa[1])
+                    epl = {'l': xl, 'p': [{'downcast': 'Err', 'v': 1}, {'f': '0', 'i': 0, 'ty': xa[1], 'adt': in_adt}]}
+                    blocks.append({'cleanup': False, 'stmts': [asg({'l': e_l, 'p': []}, {'k': 'use', 'op': {'k': 'move', 'place': epl}}),
+                                                               asg(t['dest'], _agg(out_adt, 'Err', 1, ['0'], [mv(e_l)], da))],
+                                   'term': {'k': 'goto', 'target': target, 'line': line}, 'syn': comb})
+                    blocks.append({'cleanup': False, 'stmts': [], 'term': {'k': 'goto', 'target': target, 'line': line}, 'syn': comb})
+                else:
+                    blocks.append({'cleanup': False, 'stmts': [asg(t['dest'], _agg(out_adt, 'None', 0, [], [], da))],
+                                   'term': {'k': 'goto', 'target': target, 'line': line}, 'syn': comb})
+                    blocks.append({'cleanup': False, 'stmts': [], 'term': {'k': 'goto', 'target': target, 'line': line}, 'syn': comb})
+                count += 1
+                for at, ck in inline_at:
+                    callee = by_key.get(ck)
+                    if callee is not None and callee is not b:
+                        inline_call(b, at, callee, doc)
+                again = True
+                break
+    doc.setdefault('meta', {})['expanded_combinators'] = count
+    return doc
+
+
+# ======================================================================================================================
+# N3b `x?` is the match it abbreviates: branch on the discriminant of x itself, the Continue payload is x's Ok/Some
+#     payload, the Break arm returns Err(e)/None directly (only when `?` converts the error with the identity).
+def eliminate_try(doc):
+    n = 0
+    for b in doc['bodies']:
+        blocks = b['blocks']
+        L = b['locals']
+        for ti, T in enumerate(blocks):
+            t = T['term']
+            if t.get('k') != 'call' or T.get('cleanup'):
+                continue
+            fn = (t.get('func') or {}).get('fn') or {}
+            if fn.get('trait') != 'core::ops::Try' or fn.get('name') != 'branch' or len(t['args']) != 1 or t.get('target') is None:
+                continue
+            x = t['args'][0]
+            if x.get('k') != 'move' or x['place']['p'] or t['dest']['p']:
+                continue
+            xl, tl = x['place']['l'], t['dest']['l']
+            xty = t['arg_tys'][0]
+            is_res = xty.startswith('core::result::Result<')
+            is_opt = xty.startswith('core::option::Option<')
+            if not (is_res or is_opt):
+                continue
+            xa = _ty_args(xty)
+            T2 = blocks[t['target']]
+            if len(T2['stmts']) != 1 or T2['stmts'][0].get('k') != 'assign' or T2['stmts'][0]['rv'].get('k') != 'discriminant' or \
+                    T2['stmts'][0]['rv']['place'] != {'l': tl, 'p': []} or T2['term'].get('k') != 'switch':
+                continue
+            sw = T2['term']
+            tg = dict((v, bb) for v, bb in sw['targets'])
+            if 0 not in tg or 1 not in tg:
+                continue
+            C, Bi = tg[0], tg[1]
+            B = blocks[Bi]
+            bt = B['term']
+            bfn = (bt.get('func') or {}).get('fn') or {} if bt.get('k') == 'call' else {}
+            if bfn.get('trait') != 'core::ops::FromResidual' or bfn.get('name') != 'from_residual' or bt.get('target') is None:
+                continue
+            ga = bfn.get('generic_args') or []
+            if len(ga) != 2:
+                continue
+            out_ty, res_ty = ga
+            oa, ra = _ty_args(out_ty), _ty_args(res_ty)
+            if is_res:
+                if not (out_ty.startswith('core::result::Result<') and len(oa) == 2 and len(ra) == 2 and len(xa) == 2 and oa[1] == ra[1] == xa[1]):
+                    continue          # a converting `?` (From<E> for F) stays a `?`
+            else:
+                if not out_ty.startswith('core::option::Option<'):
+                    continue
+            # B must only shuffle the residual into the from_residual call
+            okB = all(st.get('k') == 'assign' and st['rv'].get('k') == 'use' for st in B['stmts'])
+            if not okB:
+                continue
+            line = t.get('line')
+            adt = 'core::result::Result' if is_res else 'core::option::Option'
+            okv, okidx = ('Ok', 0) if is_res else ('Some', 1)
+            # 1. the Continue payload is x's success payload, everywhere
+            cont_prefix_ok = False
+
+            def rew(o):
+                nonlocal cont_prefix_ok
+                if isinstance(o, list):
+                    for v in o:
+                        rew(v)
+                elif isinstance(o, dict):
+                    if o.get('l') == tl and isinstance(o.get('p'), list) and len(o['p']) >= 2 and isinstance(o['p'][0], dict) and o['p'][0].get('downcast') == 'Continue':
+                        f0 = o['p'][1]
+                        o['l'] = xl
+                        o['p'] = [{'downcast': okv, 'v': okidx}, {'f': '0', 'i': 0, 'ty': f0.get('ty'), 'adt': adt}] + o['p'][2:]
+                        cont_prefix_ok = True
+                    for v in o.values():
+                        rew(v)
+            for blk in blocks:
+                rew(blk['stmts'])
+                rew(blk['term'])
+            # 2. the Break arm returns the failure directly
+            dest = bt['dest']
+            if is_res:
+                L.append({'ty': xa[1], 'ty_raw': xa[1], 'name': None, 'mut': True, 'synthetic': True})
+                el = len(L) - 1
+                epl = {'l': xl, 'p': [{'downcast': 'Err', 'v': 1}, {'f': '0', 'i': 0, 'ty': xa[1], 'adt': adt}]}
+                B['stmts'] = [{'k': 'assign', 'place': {'l': el, 'p': []}, 'rv': {'k': 'use', 'op': {'k': 'move', 'place': epl}}, 'line': bt.get('line'), 'exp': True, 'syn': '?'},
+                              {'k': 'assign', 'place': dest, 'rv': _agg(adt, 'Err', 1, ['0'], [{'k': 'move', 'place': {'l': el, 'p': []}}], oa), 'line': bt.get('line'), 'exp': True, 'syn': '?'}]
+            else:
+                B['stmts'] = [{'k': 'assign', 'place': dest, 'rv': _agg(adt, 'None', 0, [], [], oa), 'line': bt.get('line'), 'exp': True, 'syn': '?'}]
+            B['term'] = {'k': 'goto', 'target': bt['target'], 'line': bt.get('line'), 'syn': '?'}
+            # 3. branch on x itself
+            L.append({'ty': 'isize', 'ty_raw': 'isize', 'name': None, 'mut': True, 'synthetic': True})
+            dl = len(L) - 1
+            T['stmts'].append({'k': 'assign', 'place': {'l': dl, 'p': []}, 'rv': {'k': 'discriminant', 'place': {'l': xl, 'p': []}}, 'line': line, 'exp': True, 'syn': '?'})
+            if is_res:
+                targets, other = [[0, C], [1, Bi]], sw['otherwise']
+            else:
+                targets, other = [[1, C]], Bi
+            T['term'] = {'k': 'switch', 'discr': {'k': 'move', 'place': {'l': dl, 'p': []}}, 'discr_ty': 'isize', 'targets': targets, 'otherwise': other,
+                         'line': line, 'exp': True, 'syn': '?'}
+            n += 1
+    doc.setdefault('meta', {})['eliminated_try'] = n
+    return doc
+
+
+# N3c jump threading: a block that has just built `x = Ok(..)/Err(..)/Some(..)/None` and jumps to a block that only
+#     branches on the discriminant of x goes to the known arm directly (no artificial merge of success and failure paths).
+def thread_known_discriminants(doc):
+    n = 0
+    for b in doc['bodies']:
+        blocks = b['blocks']
+        changed = True
+        guard = 0
+        while changed and guard < 16:
+            changed = False
+            guard += 1
+            for P in blocks:
+                pt = P['term']
+                if pt.get('k') != 'goto' or not P['stmts']:
+                    continue
+                # follow empty goto chains
+                ti = pt['target']
+                hops = 0
+                while hops < 8 and not blocks[ti]['stmts'] and blocks[ti]['term'].get('k') == 'goto':
+                    ti = blocks[ti]['term']['target']
+                    hops += 1
+                T = blocks[ti]
+                if T is P or len(T['stmts']) != 1 or T['term'].get('k') != 'switch':
+                    continue
+                ds = T['stmts'][0]
+                if ds.get('k') != 'assign' or ds['rv'].get('k') != 'discriminant' or ds['rv']['place']['p']:
+                    continue
+                if T['term']['discr'].get('place') != ds['place']:
+                    continue
+                xl = ds['rv']['place']['l']
+                last = P['stmts'][-1]
+                if last.get('k') != 'assign' or last['place'] != {'l': xl, 'p': []} or last['rv'].get('k') != 'aggregate' or last['rv'].get('agg') != 'adt':
+                    continue
+                vidx = last['rv'].get('variant_idx')
+                tgt = None
+                for v, bb in T['term']['targets']:
+                    if v == vidx:
+                        tgt = bb
+                if tgt is None:
+                    tgt = T['term']['otherwise']
+                P['term'] = {'k': 'goto', 'target': tgt, 'line': pt.get('line'), 'syn': 'thread'}
+                n += 1
+                changed = True
+    doc.setdefault('meta', {})['threaded_jumps'] = n
+    return doc
